@@ -76,6 +76,39 @@ var stdInitWhitelist = map[string]bool{
 	"hash/fnv": true, "hash": true, "time": false,
 }
 
+type fnInfo struct {
+	idx map[ssa.Value]int
+	n   int
+}
+
+var fnInfos sync.Map
+
+func (e *Engine) fnInfo(fn *ssa.Function) *fnInfo {
+	if v, ok := fnInfos.Load(fn); ok {
+		return v.(*fnInfo)
+	}
+	fi := &fnInfo{idx: map[ssa.Value]int{}}
+	add := func(v ssa.Value) {
+		fi.idx[v] = fi.n
+		fi.n++
+	}
+	for _, p := range fn.Params {
+		add(p)
+	}
+	for _, fv := range fn.FreeVars {
+		add(fv)
+	}
+	for _, b := range fn.Blocks {
+		for _, in := range b.Instrs {
+			if v, ok := in.(ssa.Value); ok {
+				add(v)
+			}
+		}
+	}
+	v, _ := fnInfos.LoadOrStore(fn, fi)
+	return v.(*fnInfo)
+}
+
 func (e *Engine) shouldInit(p *ssa.Package) bool {
 	path := p.Pkg.Path()
 	if strings.HasPrefix(path, ModulePath+"/internal/zzverif") && !strings.Contains(path, "zzverif_h") {
@@ -202,117 +235,155 @@ func (e *Engine) runPath(h *Harness, z *sym.Solver, item WorkItem) (m *Machine, 
 	return m, PathEnd{"done", ""}
 }
 
-func (e *Engine) RunHarness(h *Harness, z *sym.Solver) *HarnessResult {
-	t0 := time.Now()
-	res := &HarnessResult{H: h, Ends: map[string]int{}, Reached: map[string]bool{}, Bounds: map[string]int{},
+func newResult(h *Harness) *HarnessResult {
+	return &HarnessResult{H: h, Ends: map[string]int{}, Reached: map[string]bool{}, Bounds: map[string]int{},
 		Funcs: map[string]bool{}, Stubs: map[string]bool{}, Notes: map[string]bool{}, Unsupp: map[string]int{}, BoundMsgs: map[string]int{}}
-	q0, st0 := z.Queries, z.Time
-	work := []WorkItem{{nil, false, nil}}
-	for len(work) > 0 {
-		item := work[len(work)-1]
-		work = work[:len(work)-1]
-		if res.Paths >= e.MaxPaths {
-			res.Truncated = true
-			break
-		}
-		m, end := e.runPath(h, z, item)
-		work = append(work, m.NewWork...)
-		if end.Kind == "infeasible" {
-			res.Ends["infeasible"]++
-			continue
-		}
-		res.Paths++
-		res.Steps += m.Steps
-		res.Ends[end.Kind]++
-		res.Asserts += m.Asserts
-		res.Trivial += m.Trivial
-		res.Discharged += m.Discharged
-		res.Inconcl += m.Inconcl
-		for k := range m.Reached {
-			res.Reached[k] = true
-		}
-		for k, v := range m.Bounds {
-			res.Bounds[k] = v
-		}
-		for f := range m.FuncsSeen {
-			res.Funcs[f.String()] = true
-		}
-		for k := range m.StubsHit {
-			if !strings.HasPrefix(k, ZZ) {
-				res.Stubs[k] = true
-			}
-		}
-		for _, n := range m.Notes {
-			res.Notes[n] = true
-		}
-		if m.sched != nil {
-			res.Switches += m.sched.switches
-		}
-		switch end.Kind {
-		case "unsupported", "enginebug":
-			res.Unsupp[end.Kind+": "+end.Msg]++
-		case "bound":
-			res.BoundMsgs[end.Msg]++
-		}
-		if m.Cex != nil {
-			res.Cexs = append(res.Cexs, m.Cex)
-			if len(res.Cexs) >= e.MaxCex {
-				break
-			}
-		}
-		if end.Kind == "done" && (res.SampleVec == nil || len(m.Vec) > len(res.SampleVec)) && len(res.SampleDesc) < 2000 {
-			res.SampleVec = append([]int(nil), m.Vec...)
-			var sb strings.Builder
-			for i, c := range m.PC {
-				if i > 5 {
-					sb.WriteString(" ∧ …")
-					break
-				}
-				if i > 0 {
-					sb.WriteString(" ∧ ")
-				}
-				s := c.String()
-				if len(s) > 160 {
-					s = s[:160] + "…"
-				}
-				sb.WriteString(s)
-			}
-			res.SampleDesc = sb.String()
-		}
-	}
-	res.Queries = z.Queries - q0
-	res.SolverTime = z.Time - st0
-	res.Wall = time.Since(t0)
-	return res
 }
 
-// RunAll explores all harnesses on a worker pool.
+// absorb merges the outcome of one path into the harness result (caller holds the lock).
+func (res *HarnessResult) absorb(e *Engine, m *Machine, end PathEnd) {
+	if end.Kind == "infeasible" {
+		res.Ends["infeasible"]++
+		return
+	}
+	res.Paths++
+	res.Steps += m.Steps
+	res.Ends[end.Kind]++
+	res.Asserts += m.Asserts
+	res.Trivial += m.Trivial
+	res.Discharged += m.Discharged
+	res.Inconcl += m.Inconcl
+	for k := range m.Reached {
+		res.Reached[k] = true
+	}
+	for k, v := range m.Bounds {
+		res.Bounds[k] = v
+	}
+	for f := range m.FuncsSeen {
+		res.Funcs[f.String()] = true
+	}
+	for k := range m.StubsHit {
+		if !strings.HasPrefix(k, ZZ) {
+			res.Stubs[k] = true
+		}
+	}
+	for _, n := range m.Notes {
+		res.Notes[n] = true
+	}
+	if m.sched != nil {
+		res.Switches += m.sched.switches
+	}
+	switch end.Kind {
+	case "unsupported", "enginebug":
+		res.Unsupp[end.Kind+": "+end.Msg]++
+	case "bound":
+		res.BoundMsgs[end.Msg]++
+	}
+	if m.Cex != nil && len(res.Cexs) < e.MaxCex {
+		res.Cexs = append(res.Cexs, m.Cex)
+	}
+	if end.Kind == "done" && (res.SampleVec == nil || len(m.Vec) > len(res.SampleVec)) && len(res.SampleDesc) < 2000 {
+		res.SampleVec = append([]int(nil), m.Vec...)
+		var sb strings.Builder
+		for i, c := range m.PC {
+			if i > 5 {
+				sb.WriteString(" ∧ …")
+				break
+			}
+			if i > 0 {
+				sb.WriteString(" ∧ ")
+			}
+			s := c.String()
+			if len(s) > 160 {
+				s = s[:160] + "…"
+			}
+			sb.WriteString(s)
+		}
+		res.SampleDesc = sb.String()
+	}
+}
+
+type job struct {
+	hi   int
+	item WorkItem
+}
+
+// RunAll explores all harnesses on a worker pool; paths of one harness are spread over all workers.
 func (e *Engine) RunAll(hs []*Harness, progress func(*HarnessResult)) []*HarnessResult {
 	out := make([]*HarnessResult, len(hs))
-	var wg sync.WaitGroup
-	ch := make(chan int)
+	pending := make([]int, len(hs)) // jobs queued or running per harness
+	started := make([]time.Time, len(hs))
 	var mu sync.Mutex
+	cond := sync.NewCond(&mu)
+	var queue []job
+	for i, h := range hs {
+		out[i] = newResult(h)
+		pending[i] = 1
+	}
+	// seed in reverse so that harness 0 starts first (LIFO queue)
+	for i := len(hs) - 1; i >= 0; i-- {
+		queue = append(queue, job{i, WorkItem{}})
+	}
+	inflight := len(queue)
+	var wg sync.WaitGroup
 	for w := 0; w < e.Workers; w++ {
 		wg.Add(1)
 		go func() {
 			defer wg.Done()
 			z := sym.NewSolver(e.SolverBin, e.TimeoutMs)
 			defer z.Close()
-			for i := range ch {
-				r := e.RunHarness(hs[i], z)
+			for {
 				mu.Lock()
-				out[i] = r
-				if progress != nil {
-					progress(r)
+				for len(queue) == 0 && inflight > 0 {
+					cond.Wait()
+				}
+				if len(queue) == 0 {
+					mu.Unlock()
+					cond.Broadcast()
+					return
+				}
+				j := queue[len(queue)-1]
+				queue = queue[:len(queue)-1]
+				res := out[j.hi]
+				if started[j.hi].IsZero() {
+					started[j.hi] = time.Now()
+				}
+				skip := res.Truncated || len(res.Cexs) >= e.MaxCex
+				if !skip && res.Paths >= e.MaxPaths {
+					res.Truncated = true
+					skip = true
 				}
 				mu.Unlock()
+				var m *Machine
+				var end PathEnd
+				q0, t0 := z.Queries, z.Time
+				if !skip {
+					m, end = e.runPath(hs[j.hi], z, j.item)
+				}
+				mu.Lock()
+				if !skip {
+					res.absorb(e, m, end)
+					res.Queries += z.Queries - q0
+					res.SolverTime += z.Time - t0
+					for _, nw := range m.NewWork {
+						queue = append(queue, job{j.hi, nw})
+						pending[j.hi]++
+						inflight++
+					}
+				}
+				pending[j.hi]--
+				inflight--
+				if pending[j.hi] == 0 {
+					res.Wall = time.Since(started[j.hi])
+					if progress != nil {
+						progress(res)
+					}
+				}
+				mu.Unlock()
+				cond.Broadcast()
 			}
 		}()
 	}
-	for i := range hs {
-		ch <- i
-	}
-	close(ch)
 	wg.Wait()
 	return out
 }
